@@ -282,6 +282,9 @@ class Check:
             for sp in g["schemas"]:
                 shutil.copy(sp, os.path.join(d, "schemas", os.path.basename(sp)))
                 names.append(os.path.basename(sp))
+            for (ek, es, eo) in g.get("extra_gen") or []:
+                for sp in es:
+                    shutil.copy(sp, os.path.join(d, "schemas", os.path.basename(sp)))
             for virt, real in ctx["test_overlays"].items():
                 if os.path.basename(real) in g["libs"]:
                     shutil.copy(real, os.path.join(d, "files", os.path.basename(real)))
